@@ -64,11 +64,30 @@ type node struct {
 	w      *wallet.Wallet
 	ab     *accountant.AccountingBook
 	hip    *cache.Hippocampus
-	flash  *cache.Flashback
+	flash  *flashW
 	jug    *pipe.Juggler
 	g      *gossip.VerifGossiper
 	cancel context.CancelFunc
 	fwd    int // number of forwarding rounds observed (a round = one handler call that sent something)
+}
+
+// flashW: the node's recent-hash memory with a switch that makes the next look-up behave as if its 20 s window had passed
+type flashW struct {
+	*cache.Flashback
+	mu      sync.Mutex
+	expired bool
+}
+
+func (f *flashW) HasHash(h []byte) (bool, error) {
+	f.mu.Lock()
+	e := f.expired
+	f.expired = false
+	f.mu.Unlock()
+	seen, err := f.Flashback.HasHash(h)
+	if e {
+		return false, err
+	}
+	return seen, err
 }
 
 // stub peer: enqueue instead of dialing
@@ -226,7 +245,7 @@ func runScenario(seed int64, idx int, kind string) (out scenarioOut) {
 		ab.VerifDetachRepeater()
 		hip, _ := cache.New(4096, 128) // 128 KB per shard as on a real node: no capacity eviction at these volumes
 		fl, _ := cache.NewFlash()
-		nw.nodes = append(nw.nodes, &node{idx: i, w: &w, ab: ab, hip: hip, flash: fl, jug: pipe.New(16, 16), cancel: cancel})
+		nw.nodes = append(nw.nodes, &node{idx: i, w: &w, ab: ab, hip: hip, flash: &flashW{Flashback: fl}, jug: pipe.New(16, 16), cancel: cancel})
 	}
 	defer func() {
 		for _, n := range nw.nodes {
@@ -469,7 +488,12 @@ func runScenario(seed int64, idx int, kind string) (out scenarioOut) {
 	}
 	contacted := map[int]bool{origin: true}
 	poisoned := -1
+	firstMsg := map[int]msg{}
+	recordStep := true
 	deliver := func(m msg, note string) {
+		if _, ok := firstMsg[m.dst]; !ok {
+			firstMsg[m.dst] = m
+		}
 		n := nw.nodes[m.dst]
 		before := nw.qlen()
 		hadBefore := has(m.dst)
@@ -557,7 +581,9 @@ func runScenario(seed int64, idx int, kind string) (out scenarioOut) {
 		for i, d := range dests {
 			ds[i] = fmt.Sprint(d)
 		}
-		steps = append(steps, fmt.Sprintf("GDeliver %d %s %v [%s]", m.dst, gl, admitted, strings.Join(ds, ";")))
+		if recordStep {
+			steps = append(steps, fmt.Sprintf("GDeliver %d %s %v [%s]", m.dst, gl, admitted, strings.Join(ds, ";")))
+		}
 		out.human = append(out.human, fmt.Sprintf("deliver %d->%d gossipers=%s%s -> admitted=%v forwards=%v err=%v", m.src, m.dst, gl, note, admitted, dests, err != nil))
 		_ = valid
 		delivered++
@@ -653,6 +679,27 @@ func runScenario(seed int64, idx int, kind string) (out scenarioOut) {
 				} else {
 					viol("C11", "node-not-reached", fmt.Sprintf("node %d is reachable from origin %d but never admitted the item", i, origin))
 				}
+			}
+		}
+		// a late duplicate: the very message a relay processed first reaches it again after its recent-hash window has passed; the
+		// ledger knows the vertex, so nothing may be forwarded a second time (monitor node-forwarded-twice inside deliver)
+		if !isTrx && (kind == "vrx" || kind == "trx") && len(out.viol) == 0 {
+			for i := 0; i < nn; i++ {
+				m, ok := firstMsg[i]
+				if !ok || m.vrx == nil || nw.nodes[i].fwd != 1 {
+					continue
+				}
+				nw.nodes[i].flash.mu.Lock()
+				nw.nodes[i].flash.expired = true
+				nw.nodes[i].flash.mu.Unlock()
+				recordStep = false
+				deliver(m, " +late-duplicate")
+				recordStep = true
+				nw.mu.Lock()
+				nw.queue = nil // whatever a broken node sent again is not part of the trace
+				nw.mu.Unlock()
+				out.stats["late_duplicates"]++
+				break
 			}
 		}
 		cnt := map[int]int{}
